@@ -22,6 +22,7 @@ import (
 //	  the ways a histogram configuration reaches the aggregator through the public API: instrument option
 //	  (WithExplicitBucketBoundaries), reader aggregation selector, NewView mask, hand-written View function;
 //	  agg: - (nil) | d (default) | x (drop) | h:<bounds,>:<noMinMax> | e:<maxSize>:<maxScale>:<noMinMax>;
+//	  instead of the result: panic:<index|makeslice|other> when recording or collecting panicked (F46);
 //	  kind: 0 Counter 1 UpDownCounter 2 Histogram 3 Gauge 4-6 the observable forms; two collections into one
 //	  re-used ResourceMetrics, the second one is observed.
 func TestVerifC07Valid(t *testing.T) {
@@ -190,7 +191,15 @@ func c07RunPath(out *vOut, gen string, kind int, num, inst, rdrAgg, vk, vagg str
 		c07PCsv(v1), c07PCsv(v2))
 	defer func() {
 		if e := recover(); e != nil {
-			out.Line("%s => panic", in)
+			// a panic is an observation (finding F46: a hand-written View function's aggregation is not validated)
+			cls := "other"
+			switch m := fmt.Sprint(e); {
+			case strings.Contains(m, "index out of range"):
+				cls = "index"
+			case strings.Contains(m, "makeslice"):
+				cls = "makeslice"
+			}
+			out.Line("%s => panic:%s", in, cls)
 		}
 	}()
 	ctx := context.Background()
@@ -456,8 +465,13 @@ func c07GenPath(out *vOut, r *vRand) {
 	case "n":
 		vagg = c07PGenAgg(r, false)
 	case "c":
-		vagg = c07PGenAgg(r, true)
-		if r.Intn(2) == 0 { // boundaries that no validation has seen: unsorted, duplicates
+		// hand-written View function: nothing validates what it returns (known finding F46 for exponential
+		// parameters outside the accepted range)
+		vagg = c07PGenAgg(r, false)
+		if r.Intn(5) == 0 { // F46: parameters err() would reject
+			vagg = fmt.Sprintf("e:%d:%d:%d", vPick(r, []int{0, -1, -5, 1, 4, 4}),
+				vPick(r, []int{21, 25, -11, -15, -20, -40, 20, 0}), r.Intn(2))
+		} else if r.Intn(2) == 0 { // boundaries that no validation has seen: unsorted, duplicates
 			b := c07PGenBounds(r)
 			for i := range b {
 				j := r.Intn(i + 1)
